@@ -7,7 +7,7 @@ mashumaro/jsonschema/schema.py:on_dataclass, sliced out and translated:
         required.append(f_name)
 
 Parameters: has_default, bool(omit_none) (the owner's Config / dialect option), and the result of
-is_field_nullable (kernel K17).  The slicer checks the provenance of omit_none and that nothing else in the
+is_field_nullable (kernel K20).  The slicer checks the provenance of omit_none and that nothing else in the
 loop touches `required` / `may_be_omitted`; anything unexpected raises Unsupported."""
 from __future__ import annotations
 
